@@ -192,7 +192,10 @@ def dispatch(case):
     return judge_seq(case) if case["op"].startswith("seq:") else judge(case)
 
 def all_cases(tier):
-    return ct.cases(tier, "grad") + cn.cases(tier, "grad") + seq_cases()
+    # loss targets held in an integer / bool dtype are left out: the statement fixes the result dtype for floating-point operands,
+    # torch refuses such targets outright, and what a float32 prediction and an int64 target "should" promote to is not stated
+    nn_cases = [c for c in cn.cases(tier, "grad") if not any(str(p).startswith("target01:") for p in (c.get("pats") or []))]
+    return ct.cases(tier, "grad") + nn_cases + seq_cases()
 
 def replay(case):
     with harness.quiet():
